@@ -105,6 +105,14 @@ def evalExpr : Nat → Cfg → Nat → Expr → St → R V
     | .num n => .ok (.num n, st)
     | .bool b => .ok (.atom (.bool b), st)
     | .ident i => .ok (.atom (.str i), st)
+    | .qstr i => .ok (.atom (.qstr i), st)
+    | .blist xs comma =>
+      match evalList fuel cfg s xs st with
+      | .error e => .error e
+      | .ok (vs, st) =>
+        match atomsOf vs with
+        | some as => .ok (.blist as comma, st)
+        | none => .error .unmodelled
     | .var x => readVar cfg s (normName x) st
     | .add a b =>
       match evalExpr fuel cfg s a st with
@@ -135,6 +143,9 @@ def evalExpr : Nat → Cfg → Nat → Expr → St → R V
         | .ok (vb, st) =>
           match va, vb with
           | .atom x, .atom y => .ok (.atom (.bool (decide (x = y))), st)
+          -- a scalar never equals a list / map / argument list
+          | .atom _, _ => .ok (.atom (.bool false), st)
+          | _, .atom _ => .ok (.atom (.bool false), st)
           | _, _ => .error .unmodelled
     | .list xs comma =>
       match evalList fuel cfg s xs st with
